@@ -102,12 +102,73 @@ pub mod pool_iter {
         open spec fn decrease(&self) -> Option<nat> { Some(self.rest().len()) }
     }
 
+    /// `Iterator::map(f)`: item i of the result satisfies the postcondition of `f` for item i of the source
+    pub open spec fn is_map<B, C, F: FnMut(B) -> C>(src: Seq<B>, f: F, out: Seq<C>) -> bool {
+        &&& out.len() == src.len()
+        &&& forall|i: int| #![trigger src[i]] #![trigger out[i]] 0 <= i < src.len() ==> call_ensures(f, (src[i],), out[i])
+    }
+    /// `c` is the `Some` payload of `f` on some source item
+    pub open spec fn fm_from<B, C, F: FnMut(B) -> Option<C>>(src: Seq<B>, f: F, c: C) -> bool {
+        exists|i: int| 0 <= i < src.len() && call_ensures(f, (#[trigger] src[i],), Some(c))
+    }
+    /// the source item `b` was mapped to `None` or its payload was kept
+    pub open spec fn fm_kept<B, C, F: FnMut(B) -> Option<C>>(out: Seq<C>, f: F, b: B) -> bool {
+        call_ensures(f, (b,), None::<C>) || exists|k: int| 0 <= k < out.len() && call_ensures(f, (b,), Some(#[trigger] out[k]))
+    }
+    /// `Iterator::filter_map(f)`: `f` is applied to every item; the payloads of the `Some` results are kept.
+    /// (Stated element-wise: every kept item is the `Some` payload of `f` on some source item, and every source item
+    /// either was mapped to `None` or its payload was kept.  Order and multiplicity are not exposed.)
+    pub open spec fn is_filter_map<B, C, F: FnMut(B) -> Option<C>>(src: Seq<B>, f: F, out: Seq<C>) -> bool {
+        &&& out.len() <= src.len()
+        &&& forall|k: int| 0 <= k < out.len() ==> fm_from(src, f, #[trigger] out[k])
+        &&& forall|i: int| 0 <= i < src.len() ==> fm_kept(out, f, #[trigger] src[i])
+    }
+    /// `acc` is what `max_by(compare)` holds after the first `n >= 1` items of `s`
+    /// (core: `fold` keeping the later item `y` unless `compare(&x, &y) == Greater`)
+    pub open spec fn max_by_fold<B, F: FnMut(&B, &B) -> Ordering>(s: Seq<B>, compare: F, n: int, acc: B) -> bool
+        decreases n
+    {
+        if n <= 1 { n == 1 && s.len() >= 1 && acc == s[0] } else {
+            n <= s.len() && exists|prev: B, o: Ordering| #![trigger call_ensures(compare, (&prev, &s[n - 1]), o)] max_by_fold(s, compare, n - 1, prev) && call_ensures(compare, (&prev, &s[n - 1]), o)
+                && acc == (if o is Greater { prev } else { s[n - 1] })
+        }
+    }
+    /// `Iterator::max_by(compare)`: None iff empty
+    pub open spec fn is_max_by<B, F: FnMut(&B, &B) -> Ordering>(src: Seq<B>, compare: F, r: Option<B>) -> bool {
+        if src.len() == 0 { r is None } else { r matches Some(x) && max_by_fold(src, compare, src.len() as int, x) }
+    }
+    /// stands for `<[T; N] as IntoIterator>::into_iter` (by-value array iteration: the elements in order) as the
+    /// head of an adapter chain; units @subst `[..].into_iter()` to `[..].into_iter_shim()`
+    pub trait ArrayIntoIterShim<T> { fn into_iter_shim(self) -> Mapped<T>; }
+    impl<T, const N: usize> ArrayIntoIterShim<T> for [T; N] {
+        #[verifier::external_body]
+        fn into_iter_shim(self) -> (r: Mapped<T>) ensures r.seq() == self@ { unimplemented!() }
+    }
+
     /// a finished `.map(f)` / `.filter_map(f)` stage: the items it will yield
     #[verifier::external_body]
     #[verifier::reject_recursive_types(B)]
     pub struct Mapped<B> { k: core::marker::PhantomData<B> }
     impl<B> Mapped<B> {
         pub uninterp spec fn seq(&self) -> Seq<B>;
+        /// `Iterator::map(f)`
+        #[verifier::external_body]
+        pub fn map<C, F: FnMut(B) -> C>(self, f: F) -> (r: Mapped<C>)
+            requires forall|i: int| 0 <= i < self.seq().len() ==> call_requires(f, (#[trigger] self.seq()[i],)),
+            ensures is_map(self.seq(), f, r.seq()),
+        { unimplemented!() }
+        /// `Iterator::filter_map(f)`
+        #[verifier::external_body]
+        pub fn filter_map<C, F: FnMut(B) -> Option<C>>(self, f: F) -> (r: Mapped<C>)
+            requires forall|i: int| 0 <= i < self.seq().len() ==> call_requires(f, (#[trigger] self.seq()[i],)),
+            ensures is_filter_map(self.seq(), f, r.seq()),
+        { unimplemented!() }
+        /// `Iterator::max_by(compare)`
+        #[verifier::external_body]
+        pub fn max_by<F: FnMut(&B, &B) -> Ordering>(self, compare: F) -> (r: Option<B>)
+            requires forall|i: int, j: int| 0 <= i < self.seq().len() && 0 <= j < self.seq().len() ==> call_requires(compare, (&#[trigger] self.seq()[i], &#[trigger] self.seq()[j])),
+            ensures is_max_by(self.seq(), compare, r),
+        { unimplemented!() }
         /// `Iterator::collect()`
         #[verifier::external_body]
         pub fn collect<C: FromItems<B>>(self) -> (r: C) ensures r.collected_from(self.seq()) { unimplemented!() }
